@@ -2,7 +2,7 @@
 //!
 //! Input lines (tab separated):  <ev> <mode> <placeholder> <expr>
 //!   ev   = f64 | i64 | decimal | complex | number
-//!   mode = eval | tokens | ast | from_f64 | from_i64
+//!   mode = eval | tokens | ast | from_f64 | from_f64_raw (NaN payload bits kept) | from_i64
 //! Output:  OK <payload> #<ticks> | ERR #<ticks> | PANIC | BUDGET | TIMEOUT | BAD
 use sc_harness::*;
 use std::io::{BufRead, Write};
@@ -61,6 +61,10 @@ fn run_case(line: &str, budget: u64) -> String {
                 .map(|s| canon_debug(ev, &s))
                 .map_err(|_| ()),
             ("number", "from_f64") => Ok(num_to_wire(&Number::from(f64_from_wire(ph)?))),
+            ("number", "from_f64_raw") => Ok(match Number::from(f64_from_wire(ph)?) {
+                Number::Integer(i) => format!("I{}", i),
+                Number::Float(f) => format!("F{:016x}", f.to_bits()),
+            }),
             ("number", "from_i64") => Ok(num_to_wire(&Number::from(ph.parse::<i64>().ok()?))),
             _ => return None,
         })
